@@ -1,6 +1,7 @@
 import Lean.Data.Json
 import Gemato.Model.ManifestText
 import Gemato.Model.OpenPGP
+import Gemato.Model.Hash
 /-
   Line-protocol driver: one JSON request per input line, one JSON reply per
   output line. Strings travel as arrays of code points.
@@ -131,6 +132,37 @@ def opSpawnEnv (req : Json) : Except String Json := do
   pure (Json.mkObj [("GNUPGHOME", g PGP.sGNUPGHOME), ("TZ", g PGP.sTZ), ("http_proxy", g PGP.sHttpProxy),
     ("n", jNat e.length)])
 
+/-- the identity "hash": the digest is the content that was fed -/
+def idHash : Hash.HashAlg := { State := List Nat, init := [], update := fun s b => s ++ b, final := id }
+
+def rle : List Nat → List (Nat × Nat)
+  | [] => []
+  | x :: xs => match rle xs with
+    | (y, n) :: rest => if x == y then (y, n + 1) :: rest else (x, 1) :: (y, n) :: rest
+    | [] => [(x, 1)]
+
+/-- chunks arrive as lists of [byte, count] runs -/
+def opHashSchedule (req : Json) : Except String Json := do
+  let hint ← (← req.getObjVal? "hint").getNat?
+  let slurp ← (← req.getObjVal? "slurp_max").getNat?
+  let cj ← (← req.getObjVal? "chunks").getArr?
+  let chunks ← cj.toList.mapM fun c => do
+    let runs ← c.getArr?
+    let parts ← runs.toList.mapM fun r => do
+      let p ← r.getArr?
+      pure (List.replicate (← (p[1]!).getNat?) (← (p[0]!).getNat?))
+    pure parts.flatten
+  let fed := Hash.hashFile idHash slurp hint chunks
+  let size := Hash.hashFile Hash.sizeHash slurp hint chunks
+  pure (Json.mkObj [("fed", Json.arr ((rle fed).toArray.map fun (b, n) => Json.arr #[jNat b, jNat n])), ("size", jNat size)])
+
+def opResolveNames (req : Json) : Except String Json := do
+  let names ← getStrs (← req.getObjVal? "names")
+  let avail ← getStrs (← req.getObjVal? "available")
+  pure (Json.mkObj [("model", match Hash.resolveNames (fun a => avail.contains a) names with
+    | .ok r => Json.mkObj [("ok", Json.arr (r.toArray.map fun (n, a) => Json.arr #[jStr n, jStr a]))]
+    | .error (.unsupported n) => Json.mkObj [("unsupported", jStr n)])])
+
 def dispatch (req : Json) : Except String Json := do
   let op ← (← req.getObjVal? "op").getStr?
   match op with
@@ -140,6 +172,8 @@ def dispatch (req : Json) : Except String Json := do
   | "decode" => opDecode req
   | "verify_status" => opVerifyStatus req
   | "spawn_env" => opSpawnEnv req
+  | "hash_schedule" => opHashSchedule req
+  | "resolve_names" => opResolveNames req
   | _ => .error s!"unknown op {op}"
 
 end Drv
